@@ -734,7 +734,17 @@ class Interp:
                 return self.eval(node.body, env, f.module)
             is_gen = _is_generator(node)
             if is_gen:
-                raise Unsupported(f"generator function {f.qualname} (needs a generator contract)")
+                # a generator is executed eagerly as the builder of the sequence it yields
+                ylog = []
+                self.__dict__.setdefault("_yield_stack", []).append(ylog)
+                try:
+                    try:
+                        self.exec_block(node.body, env, f.module, f.qualname)
+                    except _Return:
+                        pass
+                finally:
+                    self._yield_stack.pop()
+                return GenResult(ylog)
             try:
                 self.exec_block(node.body, env, f.module, f.qualname)
             except _Return as r:
@@ -972,7 +982,7 @@ class Interp:
         (3) continue after the loop from a havoc'd state satisfying the invariant and the
         negated guard."""
         ex = self.ex
-        where = f"{qual}:loop@{st.lineno}"
+        where = f"{qual}:loop#{self._loop_ordinal(st, module, qual)}"
         # (1) entry
         ghost0 = spec.havoc(self, env, entry=True)
         for name, c in spec.invariant(self, env, ghost0):
@@ -993,7 +1003,9 @@ class Interp:
             except _Continue:
                 pass
             except _Break:
-                raise Unsupported("break inside an invariant loop")
+                # leaves the loop from an arbitrary iteration: continue with the code after the loop
+                ex.path.tags["loop-exit-by-break"] = where
+                return
             if spec.advance:
                 spec.advance(self, env, ghost)
             for name, c in spec.invariant(self, env, ghost):
@@ -1580,7 +1592,21 @@ class Interp:
         return v
 
     def e_Yield(self, e, env, module):
-        raise Unsupported("yield")
+        st = self.__dict__.get("_yield_stack")
+        if not st:
+            raise Unsupported("yield outside a generator call")
+        st[-1].append(self.eval(e.value, env, module) if e.value is not None else None)
+        return None
+
+
+class GenResult:
+    """the (eagerly built) sequence of values a generator yields"""
+
+    def __init__(self, items):
+        self.items = items
+
+    def sym_iter(self, interp):
+        return list(self.items)
 
 
 class SymStr:
